@@ -30,7 +30,7 @@ func TestMain(m *testing.M) {
 		map[string]float64{"accelerated": 0.5, "near-miss": 0.30, "rtl": 0.08, "bm-prefix": 0.03, "prefix-filter": 0.10,
 			"findmode=LeadingString_LeftToRight/patterns": 0.02, "findmode=LeadingSet_LeftToRight/patterns": 0.02,
 			"findmode=FixedDistanceString_LeftToRight/patterns": 0.01, "findmode=FixedDistanceChar_LeftToRight/patterns": 0.01,
-			"findmode=FixedDistanceSets_LeftToRight/patterns": 0.01, "findmode=LiteralAfterLoop_LeftToRight/patterns": 0.005,
+			"findmode=FixedDistanceSets_LeftToRight/patterns": 0.01, "findmode=LiteralAfterLoop_LeftToRight/patterns": 0.003,
 			"findmode=RequiredLandmarkChain_LeftToRight/patterns": 0.005, "findmode=LeadingStrings_LeftToRight/patterns": 0.002,
 			"findmode=LeadingStrings_OrdinalIgnoreCase_LeftToRight/patterns": 0.002, "findmode=LeadingString_OrdinalIgnoreCase_LeftToRight/patterns": 0.005,
 			"findmode=TrailingAnchor_FixedLength_LeftToRight_End/patterns": 0.003, "findmode=TrailingAnchor_FixedLength_LeftToRight_EndZ/patterns": 0.003,
